@@ -465,11 +465,38 @@ func runWatcherHistory(t *testing.T, run *vt.Run, c vt.CaseID, rng *rand.Rand) {
 		st.Put("harness", pkey, d.Clone())
 		cacheSize := []int{0, 1, 2, 3}[rng.IntN(4)]
 		w := ring.NewPartitionRingWatcherWithOptions("verif", pkey, st.Client("watcher"), ring.PartitionRingOptions{ShuffleShardCacheSize: cacheSize}, log.NewNopLogger(), nil)
-		if err := services.StartAndAwaitRunning(context.Background(), w); err != nil {
+		// a third of the histories run the watcher as the second member of a watchers group (another key, another
+		// content) and read its ring through the group and through the group's partition-instance rings
+		current := func() *ring.PartitionRing { return w.PartitionRing() }
+		var svc services.Service = w
+		if rng.IntN(3) == 0 {
+			od := ring.NewPartitionRingDesc()
+			od.AddPartition(77, ring.PartitionActive, time.Unix(now, 0))
+			st.Put("harness", pkey+"-other", od)
+			other := ring.NewPartitionRingWatcherWithOptions("verif-other", pkey+"-other", st.Client("watcher-other"), ring.PartitionRingOptions{}, log.NewNopLogger(), nil)
+			grp, err := ring.NewPartitionRingWatchers(other, w)
+			if err != nil {
+				run.Inconclusive(err.Error())
+				return
+			}
+			svc = grp
+			pirs := ring.NewPartitionInstanceRings(grp, nil, time.Minute)
+			current = func() *ring.PartitionRing {
+				if a, b := grp.PartitionRing(1), pirs.Get(1).PartitionRing(); a != b {
+					run.Violation(c, "partition-watcher/group-members-disagree", "the watchers group and its partition-instance rings hand out different rings for the same member at one quiescent point", nil)
+				}
+				if grp.PartitionRing(0).PartitionsCount() != 1 {
+					run.Violation(c, "partition-watcher/group-mixes-members", "the other member of the group no longer shows its own single partition", nil)
+				}
+				return pirs.Get(1).PartitionRing()
+			}
+			run.Count("watcher_histories_through_a_group", 1)
+		}
+		if err := services.StartAndAwaitRunning(context.Background(), svc); err != nil {
 			run.Inconclusive(err.Error())
 			return
 		}
-		defer services.StopAndAwaitTerminated(context.Background(), w) //nolint
+		defer services.StopAndAwaitTerminated(context.Background(), svc) //nolint
 		var updates []string
 		shardQs := [][2]any{{"t-1", 1}, {"t-2", 2}, {"t-1", 3}, {"t-3", 0}}
 		steps := 8 + rng.IntN(25)
@@ -542,7 +569,7 @@ func runWatcherHistory(t *testing.T, run *vt.Run, c vt.CaseID, rng *rand.Rand) {
 			}
 			want := partAnswers(fresh, shardQs, lbQs, keys)
 			for round := 0; round < 2; round++ {
-				got := partAnswers(w.PartitionRing(), shardQs, lbQs, keys)
+				got := partAnswers(current(), shardQs, lbQs, keys)
 				for k, wv := range want {
 					if got[k] != wv {
 						api := k
